@@ -340,6 +340,24 @@ class Gen:
             return ('expr', ('asg', ('var', s), ('bin', r.choice(['+', '-']), ('var', r.choice(self.shorts)), r.choice([('num', r.choice([1, 256, 1000])), ('var', r.choice(self.shorts))]))))
         return ('expr', ('asg', ('var', r.choice(self.chars)), ('var', s)))
 
+    def flagprobe(self):
+        """load v ; <one statement, preferably a call> ; test v against zero — the shape on which a stale
+        belief about the processor flags (generator or optimiser) becomes visible"""
+        r = self.rng
+        lv = ('var', r.choice(['X', 'Y'])) if self.use_regs and r.random() < 0.5 else ('var', r.choice(self.chars))
+        x = r.random()
+        if x < 0.7:
+            first = ('expr', ('asg', lv, self.atom()))
+        else:
+            first = ('expr', (r.choice(['pre', 'post']), r.choice(['++', '--']), lv))
+        if self.funcs and self.use_calls and r.random() < 0.6:
+            mid = ('expr', ('call', r.choice(self.funcs), []))
+        else:
+            mid = self.assign()
+        c = r.choice([lv, ('not', lv), ('cmp', '==', lv, ('num', 0)), ('cmp', '!=', lv, ('num', 0))])
+        els = ('block', [self.assign_char()]) if r.random() < 0.4 else None
+        return ('block', [first, mid, ('if', c, ('block', [self.assign_char()]), els)])
+
     def loop(self):
         r = self.rng
         if not self.counters_free:
@@ -380,6 +398,8 @@ class Gen:
         x = r.random()
         self.depth += 1
         try:
+            if self.depth <= 3 and x < 0.07:
+                return self.flagprobe()
             if self.depth > 3 or x < 0.55:
                 return self.assign()
             if x < 0.75:
